@@ -155,9 +155,11 @@ Apis(ca) ==
     [] ca = "var" -> {"canon", "joined", "object"}
     [] ca \in {"map", "mapiface"} -> {"canon", "sliceroot", "mapfn", "object",
                                       "extrakey", "extrakeys",   \* the map also holds one / two entries that have no rule at all
+                                      "namedkey",                \* the map's key type is a defined string type
                                       "slice2nd"}                \* second element of a slice whose first element holds every ruled
                                                                  \* key with a non-empty value (elements are judged independently)
-    [] ca = "url" -> {"canon", "ptr", "object"}
+    [] ca = "url" -> {"canon", "ptr", "object",
+                      "enckey"}    \* the parameter names are written with percent-escapes
 
 ReqMarker(q) == IF "requiredC" \in Range(q) THEN "REQMSG" ELSE "it is required"
 
